@@ -205,7 +205,9 @@ class PgExec final : public yaclib::IExecutor {
   PgExec(int tag, int mode) noexcept : _tag{tag}, _mode{mode} {
   }
   [[nodiscard]] Type Tag() const noexcept final {
-    return Type::Custom;
+    // I3 and S4 present themselves like yaclib::MakeInline() / MakeInline(StopTag{}): the tag is advisory, a step
+    // attached with an explicit executor still has to go through Submit (and is dropped by the stopped one)
+    return _mode == 0 ? Type::Custom : Type::Inline;
   }
   [[nodiscard]] bool Alive() const noexcept final {
     return _mode != 2;
